@@ -12,14 +12,14 @@ use crate::common::constants::{CoroutineState, COROUTINE_GLOBAL_QUEUE_BEAN, TASK
 use crate::scheduler::SchedulableCoroutineState;
 use crate::verif_sync;
 
-fn vnow() -> u64 {
+pub(crate) fn vnow() -> u64 {
     1_000
 }
-fn fmt_stub(_args: std::fmt::Arguments<'_>) -> String {
+pub(crate) fn fmt_stub(_args: std::fmt::Arguments<'_>) -> String {
     String::new()
 }
 /// E6: common::page_size() asks sysconf (FFI, nondeterministic under Kani and then "negative" fails its expect)
-fn page_size_stub() -> usize {
+pub(crate) fn page_size_stub() -> usize {
     4096
 }
 
@@ -34,9 +34,9 @@ static mut Q_TAG: u64 = 0x2c0ffee; // (keeps this module's statics from being al
 
 // (an associated function of a type with a lifetime parameter: Kani requires the stub to have as many generic parameters as
 // `BeanFactory::<'_>::get_or_default::<B>`)
-struct StubFactory<'b>(std::marker::PhantomData<&'b ()>);
+pub(crate) struct StubFactory<'b>(std::marker::PhantomData<&'b ()>);
 impl StubFactory<'_> {
-    fn get_or_default<B: Default>(bean_name: &str) -> &B {
+    pub(crate) fn get_or_default<B: Default>(bean_name: &str) -> &B {
         unsafe {
             let p = if bean_name.len() == TASK_GLOBAL_QUEUE_BEAN.len() { TASK_Q } else { CO_Q };
             assert!(!p.is_null(), "harness: queue singleton not installed");
@@ -52,9 +52,9 @@ impl StubFactory<'_> {
 // produce, and, like the real process-wide queue, shared by every pool. What the queue itself guarantees is C03-C06's business.
 static mut BAG: [*mut std::ffi::c_void; 2] = [std::ptr::null_mut(); 2];
 static mut BAG_TAG: u64 = 0x2ba6;
-struct QStub<'l, T>(std::marker::PhantomData<&'l T>);
+pub(crate) struct QStub<'l, T>(std::marker::PhantomData<&'l T>);
 impl<'l, T: std::fmt::Debug> QStub<'l, T> {
-    fn push(_this: &OrderedLocalQueue<'l, T>, item: T) {
+    pub(crate) fn push(_this: &OrderedLocalQueue<'l, T>, item: T) {
         unsafe {
             let p: *mut std::ffi::c_void = Box::into_raw(Box::new(item)).cast();
             if BAG[0].is_null() {
@@ -65,7 +65,7 @@ impl<'l, T: std::fmt::Debug> QStub<'l, T> {
             }
         }
     }
-    fn pop(_this: &OrderedLocalQueue<'l, T>) -> Option<T> {
+    pub(crate) fn pop(_this: &OrderedLocalQueue<'l, T>) -> Option<T> {
         unsafe {
             let first: bool = kani::any();
             let i = if BAG[1].is_null() || (first && !BAG[0].is_null()) { 0 } else { 1 };
@@ -77,12 +77,12 @@ impl<'l, T: std::fmt::Debug> QStub<'l, T> {
             Some(*Box::from_raw(p.cast::<T>()))
         }
     }
-    fn is_empty(_this: &OrderedLocalQueue<'l, T>) -> bool {
+    pub(crate) fn is_empty(_this: &OrderedLocalQueue<'l, T>) -> bool {
         unsafe { BAG[0].is_null() && BAG[1].is_null() }
     }
 }
 
-fn small_queues() {
+pub(crate) fn small_queues() {
     unsafe {
         TASK_Q = std::ptr::from_mut(Box::leak(Box::new(OrderedWorkStealQueue::<Task<'static>>::new(2, 2)))).cast();
         CO_Q = std::ptr::from_mut(Box::leak(Box::new(OrderedWorkStealQueue::<SchedulableCoroutine>::new(2, 2)))).cast();
@@ -96,8 +96,13 @@ fn small_queues() {
     }
 }
 
-fn pool(name: &str) -> CoroutinePool<'static> {
+pub(crate) fn pool(name: &str) -> CoroutinePool<'static> {
     CoroutinePool::new(String::from(name), crate::common::constants::DEFAULT_STACK_SIZE, 0, 1, 0)
+}
+
+/// (for harnesses mounted elsewhere: what a worker does for one task)
+pub(crate) fn run_one(p: &CoroutinePool<'static>) -> Option<()> {
+    p.try_run()
 }
 
 // (tasks are closures, not fn items: `Box::new` of a fn-item type coerced to `Box<dyn FnOnce>` is an internal compiler error
@@ -233,6 +238,45 @@ c02_race_at!(c02_completion_at_point_21, 21);
 c02_race_at!(c02_completion_at_point_22, 22);
 c02_race_at!(c02_completion_at_point_23, 23);
 c02_race_at!(c02_completion_while_blocked, 1000);
+
+/// A first join times out while the task is still queued; a second join on the same task then blocks, and the task completes
+/// while it is blocked: the second join must be woken with the task's value (it must not sleep through its own timeout too).
+#[kani::proof]
+#[kani::unwind(3)]
+#[kani::stub(crate::common::now, vnow)]
+#[kani::stub(alloc::fmt::format, fmt_stub)]
+#[kani::stub(crate::common::page_size, page_size_stub)]
+#[kani::stub(crate::common::beans::BeanFactory::get_or_default, StubFactory::get_or_default)]
+#[kani::stub(crate::common::ordered_work_steal::OrderedLocalQueue::push, QStub::push)]
+#[kani::stub(crate::common::ordered_work_steal::OrderedLocalQueue::pop, QStub::pop)]
+#[kani::stub(crate::common::ordered_work_steal::OrderedLocalQueue::is_empty, QStub::is_empty)]
+fn c02_rejoin_after_a_timed_out_join_is_woken() {
+    small_queues();
+    let p = pool("p");
+    let v: Option<usize> = kani::any();
+    let id = p.submit_task(Some(String::from("t")), |p| p, v, None).expect("submit");
+    let first_timed_out = {
+        let r1 = p.wait_task_result(id, Duration::from_millis(5));
+        let e = r1.is_err();
+        core::mem::forget(r1);
+        e
+    };
+    kani::assert(first_timed_out, "the task has not run yet: the first join times out");
+    unsafe {
+        RACE_POOL = &raw const p;
+        B_DONE = false;
+        verif_sync::BLOCK_HOOK = Some(completer);
+    }
+    let r2 = p.wait_task_result(id, Duration::from_secs(3600));
+    unsafe {
+        kani::assert(B_DONE, "the task ran while the second join was blocked");
+        kani::assert(matches!(r2, Ok(Ok(x)) if x == v), "the second join returns the task's own value");
+        kani::assert(verif_sync::FULL_TIMEOUTS == 1, "only the first join slept through its timeout: the second one is woken by the completion");
+        verif_sync::BLOCK_HOOK = None;
+    }
+    core::mem::forget(r2);
+    core::mem::forget(p);
+}
 
 /// Two pools (two event loops) share the process-wide task queue: a task submitted to pool A may be run by pool B's
 /// worker (work stealing). The join, which asks the pool the task was submitted to, must still return the result.
@@ -394,6 +438,36 @@ fn c12_stop_settles_waiters() {
     core::mem::forget(p);
 }
 
+/// A waiter that polls with short timeouts: its first wait times out before the pool is stopped; after the stop its next wait
+/// must be answered with the stop error (its registration is still known to the pool), not time out again.
+#[kani::proof]
+#[kani::unwind(3)]
+#[kani::stub(crate::common::now, vnow)]
+#[kani::stub(alloc::fmt::format, fmt_stub)]
+#[kani::stub(crate::common::page_size, page_size_stub)]
+#[kani::stub(crate::common::beans::BeanFactory::get_or_default, StubFactory::get_or_default)]
+fn c12_stop_settles_a_waiter_that_polls() {
+    small_queues();
+    let mut p = pool("p");
+    let id: u64 = kani::any();
+    kani::assume(id != 0);
+    let first_timed_out = {
+        let r1 = p.wait_task_result(id, Duration::from_millis(5));
+        let e = r1.is_err();
+        core::mem::forget(r1);
+        e
+    };
+    kani::assert(first_timed_out, "nothing has happened yet: the first poll times out");
+    p.do_clean();
+    let r2 = p.wait_task_result(id, Duration::from_millis(5));
+    kani::assert(matches!(r2, Ok(Err(_))), "after the pool stopped, the polling waiter gets the stop error instead of timing out again");
+    unsafe {
+        kani::assert(verif_sync::FULL_TIMEOUTS == 1, "only the first poll slept through its timeout");
+    }
+    core::mem::forget(r2);
+    core::mem::forget(p);
+}
+
 // =============================================================================================== C13
 /// Two queued tasks, one of them (symbolic) is cancelled before it starts: the worker skips exactly that one, runs the other
 /// one once, the cancel mark is consumed, and the waiter of the cancelled task is not left blocked until its timeout.
@@ -455,7 +529,13 @@ fn cancel_before_start_affects_only_that_task(cancel_first: bool) {
     let ro = p.wait_task_result(oid, Duration::from_millis(5));
     kani::assert(matches!(ro, Ok(Ok(x)) if x == ov), "the other task's waiter gets its result");
     kani::assert(p.try_run().is_none(), "nothing is left queued");
+    // a waiter that only arrives after the worker discarded the cancelled task is answered too (it must not sleep out its timeout)
+    let rc = p.wait_task_result(cid, Duration::from_secs(3600));
+    kani::assert(matches!(rc, Ok(Err(_))), "a late waiter of the cancelled task is told that it was cancelled");
+    unsafe { kani::assert(verif_sync::FULL_TIMEOUTS == 0, "no waiter slept until its timeout") };
     kani::cover!(true, "reached");
+    core::mem::forget(ro);
+    core::mem::forget(rc);
     core::mem::forget(p);
 }
 
@@ -489,6 +569,86 @@ fn c13_waiter_of_a_cancelled_task_is_not_left_blocked() {
         verif_sync::BLOCK_HOOK = None;
     }
     _ = r;
+    core::mem::forget(p);
+}
+
+/// `JoinHandle::try_cancel(self)` cancels and then drops the handle (whose Drop calls `clean_task_result`): a task cancelled
+/// that way before it starts must not run either, the other queued task runs, and no bookkeeping is left behind.
+#[kani::proof]
+#[kani::unwind(3)]
+#[kani::stub(crate::common::now, vnow)]
+#[kani::stub(alloc::fmt::format, fmt_stub)]
+#[kani::stub(crate::common::page_size, page_size_stub)]
+#[kani::stub(crate::common::beans::BeanFactory::get_or_default, StubFactory::get_or_default)]
+#[kani::stub(crate::common::ordered_work_steal::OrderedLocalQueue::push, QStub::push)]
+#[kani::stub(crate::common::ordered_work_steal::OrderedLocalQueue::pop, QStub::pop)]
+#[kani::stub(crate::common::ordered_work_steal::OrderedLocalQueue::is_empty, QStub::is_empty)]
+fn c13_cancel_then_drop_of_the_handle_keeps_the_task_cancelled() {
+    small_queues();
+    CANCEL_TASKS.clear();
+    RUNNING_TASKS.clear();
+    unsafe { RAN = [0; 2] };
+    let p = pool("p");
+    let v1: Option<usize> = kani::any();
+    let id0 = p.submit_task(Some(String::from("t0")), |p| task0(p), kani::any(), kani::any()).expect("submit 0");
+    let id1 = p.submit_task(Some(String::from("t1")), |p| task1(p), v1, kani::any()).expect("submit 1");
+    // what open_coroutine::JoinHandle::try_cancel(self) does: the cancel request, then the handle's Drop
+    CoroutinePool::try_cancel_task(id0);
+    p.clean_task_result(id0);
+    _ = p.try_run();
+    _ = p.try_run();
+    unsafe {
+        kani::assert(RAN[0] == 0, "a task cancelled before it starts never runs (the handle was dropped after the cancel)");
+        kani::assert(RAN[1] == 1, "the other queued task runs exactly once");
+    }
+    kani::assert(!CANCEL_TASKS.contains(&id0), "the cancel request is consumed with the task it was made for");
+    kani::assert(!p.no_waits.contains(&id0), "the dropped-handle mark is consumed with the task");
+    kani::assert(p.results.get(&id0).is_none(), "no result is stored for a task nobody can wait for");
+    let r1 = p.wait_task_result(id1, Duration::from_millis(5));
+    kani::assert(matches!(r1, Ok(Ok(x)) if x == v1), "the other task's waiter gets its result");
+    kani::cover!(true, "reached");
+    core::mem::forget(r1);
+    core::mem::forget(p);
+}
+
+/// The worker that meets the cancelled task is a coroutine (the pool's workers are): after it discarded the task, the task is
+/// not recorded as running on that worker, so a REPEATED cancel of the same task is an ordinary "not running" cancel request
+/// and is not routed to the worker coroutine - which by then runs another task.
+#[kani::proof]
+#[kani::unwind(3)]
+#[kani::stub(crate::common::now, vnow)]
+#[kani::stub(alloc::fmt::format, fmt_stub)]
+#[kani::stub(crate::common::page_size, page_size_stub)]
+#[kani::stub(crate::common::beans::BeanFactory::get_or_default, StubFactory::get_or_default)]
+#[kani::stub(crate::common::ordered_work_steal::OrderedLocalQueue::push, QStub::push)]
+#[kani::stub(crate::common::ordered_work_steal::OrderedLocalQueue::pop, QStub::pop)]
+#[kani::stub(crate::common::ordered_work_steal::OrderedLocalQueue::is_empty, QStub::is_empty)]
+fn c13_repeated_cancel_of_a_discarded_task_reaches_no_worker() {
+    small_queues();
+    CANCEL_TASKS.clear();
+    RUNNING_TASKS.clear();
+    unsafe { RAN = [0; 2] };
+    let p = pool("p");
+    let worker: SchedulableCoroutine<'static> =
+        SchedulableCoroutine::new(Some(String::from("w")), |_, ()| None, None, None).expect("create coroutine");
+    let v1: Option<usize> = kani::any();
+    let id0 = p.submit_task(Some(String::from("t0")), |p| task0(p), kani::any(), kani::any()).expect("submit 0");
+    let id1 = p.submit_task(Some(String::from("t1")), |p| task1(p), v1, kani::any()).expect("submit 1");
+    CoroutinePool::try_cancel_task(id0);
+    SchedulableCoroutine::init_current(&worker);
+    _ = p.try_run();
+    _ = p.try_run();
+    kani::assert(!RUNNING_TASKS.contains_key(&id0), "a discarded task is not recorded as running on the worker that discarded it");
+    kani::assert(!RUNNING_TASKS.contains_key(&id1), "a finished task is not recorded as running");
+    // the same task is cancelled again (try_cancel is idempotent for the caller)
+    CoroutinePool::try_cancel_task(id0);
+    SchedulableCoroutine::clean_current();
+    unsafe {
+        kani::assert(RAN[0] == 0 && RAN[1] == 1, "the cancelled task never ran, the other one ran once");
+    }
+    kani::assert(CANCEL_TASKS.contains(&id0), "a repeated cancel of the discarded task is a plain pending request: it is not routed to a worker coroutine");
+    kani::cover!(true, "reached");
+    core::mem::forget(worker);
     core::mem::forget(p);
 }
 
